@@ -954,7 +954,7 @@ def splice_fn(fs, stats, canary=False, stub=False):
         else:
             text = RULES[rid](text, stats)
         if text == before and not optional:
-            stats.setdefault("warnings", []).append({"fn": fs.name, "what": "rule %s no longer applies to %s::%s" % (rid, fs.file, fs.name)})
+            stats.setdefault("warnings", []).append({"fn": fs.name, "kind": "rule", "what": "rule %s no longer applies to %s::%s" % (rid, fs.file, fs.name)})
     vis = fs.opts.get("vis", "pub")
     # --- visibility
     if vis == "pub":
@@ -1032,7 +1032,7 @@ def splice_fn(fs, stats, canary=False, stub=False):
     loops = _loops(code[body_open:body_close + 1])
     for n, ltext in ({} if stub else fs.loops).items():
         if n > len(loops):
-            stats.setdefault("warnings", []).append({"fn": fs.name, "what": "%s::%s has %d loops, contract refers to loop %d (invariant dropped)" % (fs.file, fs.name, len(loops), n)})
+            stats.setdefault("warnings", []).append({"fn": fs.name, "kind": "loop", "what": "%s::%s has %d loops, contract refers to loop %d (invariant dropped)" % (fs.file, fs.name, len(loops), n)})
             continue
         kw, bo, bc = loops[n - 1]
         inserts.append((code[body_open + bo].start, "\n" + ltext.rstrip() + "\n", "loop %d" % n))
@@ -1065,7 +1065,7 @@ def splice_fn(fs, stats, canary=False, stub=False):
                     alt = (h2[0], cut)
                     break
             if alt is None or where == "after":
-                stats.setdefault("warnings", []).append({"fn": fs.name, "what": "anchor `%s` #%d not found in %s::%s (proof hint dropped)" % (stmt, n, fs.file, fs.name)})
+                stats.setdefault("warnings", []).append({"fn": fs.name, "kind": "anchor", "what": "anchor `%s` #%d not found in %s::%s (proof hint dropped)" % (stmt, n, fs.file, fs.name)})
                 continue
             stats.setdefault("notes", []).append({"fn": fs.name, "what": "anchor `%s` matched by its unique prefix of %d tokens" % (stmt, alt[1])})
             inserts.append((code[alt[0]].start, "\n" + ptext.rstrip() + "\n", "%s `%s` (prefix match)" % (where, stmt)))
